@@ -21,11 +21,11 @@ NA = {
 PENDING = "engine under construction in this session (claimed in DESIGN.md; listed here until its check is registered)"
 CHECKS = {
  "C07": dict(cat="fault_enumeration", ref="5.1",
-   text="Seeded search over delivery schedules of the input bytes (every composition of short inputs, every split point, 1-byte and zero-length reads, reads cut at the scanner's 64 KiB buffer, injected read errors) for RS drawn from newline / any byte / empty / multi-byte char / a regex grammar, through stdin, file operands, getline, getline<file and cmd|getline; each execution of the real interpreter is compared with the one-shot run and with a buffer-free reference split (lossless equations of the statement). Sampling, not proof.",
+   text="Seeded search over delivery schedules of the input bytes (every composition of short inputs, every split point, 1-byte and zero-length reads, reads cut at the scanner's 64 KiB buffer, injected read errors) for RS drawn from newline / any byte / empty / multi-byte char / a regex grammar, through stdin, file operands, getline, getline<file and cmd|getline; each execution of the real interpreter is compared with the one-shot run and with a buffer-free reference split (lossless equations of the statement); also RS assigned while the scanner is alive (regex RS, another separator from record K on) and a main-loop record kept across getline var. Sampling, not proof.",
    note="Trusted: Go regexp on the whole input as reference, bufio.Scanner as part of the SUT, native-function argument conversion (C17). RS fixed per run.",
    tech="deterministic simulation: seeded delivery schedules and read faults vs reference split"),
  "C08": dict(cat="fault_enumeration", ref="5.2",
-   text="W1: seeded search over delivery schedules (every composition of short inputs, every split point, 1-byte/zero-length reads, EOF with data) x separators (incl. multi-byte) x comment char x header x BOM, through Config fields or the INPUTMODE variable, stdin or file operand; fields of every execution are compared with encoding/csv (LazyQuotes) on the BOM-less bytes, $0 with the record's own byte range, FIELDS/@name with the header row, and everything with the one-shot run. W2: a writer interpreter in CSV/TSV output mode (print args or $0 rebuild, raw/CRLF) writes generated CR-free rows into a simulated sink whose bytes reach a reader interpreter under a drawn schedule; the values must come back exactly. Sampling, not proof.",
+   text="W1: seeded search over delivery schedules (every composition of short inputs, every split point, 1-byte/zero-length reads, EOF with data) x separators (incl. multi-byte) x comment char x header x BOM, through Config fields or the INPUTMODE variable, stdin or file operand; fields of every execution are compared with encoding/csv (LazyQuotes) on the BOM-less bytes, $0 with the record's own byte range, FIELDS/@name with the header row, split($0, arr) and $0 = $0 with an RFC 4180 parse of the record text, and everything with the one-shot run. W2: a writer interpreter in CSV/TSV output mode (print args or $0 rebuild, raw/CRLF) writes generated CR-free rows into a simulated sink whose bytes reach a reader interpreter under a drawn schedule; the values must come back exactly. Sampling, not proof.",
    note="Trusted: encoding/csv.Reader as the RFC 4180 reference named by the property; $0 compared modulo CR for records containing a CR; native-function argument conversion (C17).",
    tech="deterministic simulation: seeded delivery schedules vs encoding/csv reference; simulated writer->reader pipeline"),
  "C14": dict(cat="exploration", ref="5.6",
